@@ -25,8 +25,21 @@ before (other residues, classes, atoms, restraints): the diagnostics of the last
 Numerical parameters are written in every spelling of the free format; which tokens are numbers is decided by the
 format (NUM_RE), not by the implementation — a parameter that is reported as an atom is a false warning
 (implementation vs spec only: the split of parameters from atom names is upstream of the Lean model).
-A diverging case is minimised (one restraint, shortest history, plain read form) before it is reported; one report per
-class of divergence.
+Physical layout: a restraint stands in the file as SHELXL allows — wrapped with '=' behind any token (also directly behind
+the keyword; two to four physical lines), several blanks between tokens, blanks behind the '=', and a '!' comment behind the
+'=' of any wrapped line and behind the last line; the comment may contain whatever the instruction syntax itself uses ('='
+anywhere, also as its last character, '!', '$', '<', '>', '_*', names of atoms that do not exist, keywords). RESI cards and
+atom lines carry such comments too (`remarks`). The logical line the expectation is computed from is checked against the
+specification of the layout (C05 `norm` of the physical lines, evaluated by the driver); the model starts at the physical
+lines as well (Lean `assignLines`: C05's model of the continuation loop, split, Restraint.__init__, check, set(), sort()),
+theorem layout_warnings_eq_missing. A systematic part (`layout_grid`: wrap shapes x comment kinds x absent token on the
+first / a middle / the last physical line) runs in every tier; 30 % of the random restraints of all streams are laid out.
+Names: one pool of five names per case, pools of names that are easy to confuse (C1A C1B C1C C1' C1"; C1 C10 C11; C1 N1 O1;
+C9 C09 C009; CA CA1 CAB ...). Absent atoms: none, one, two, three or all of the addressed (NAME, residue) pairs at once;
+the same name more than once in a restraint (bare, _n, _*, other case). `confusable_grid` (every pool x addressing form x
+none / single / pairs / all of the five names absent) runs in every tier.
+A diverging case is minimised (one restraint, shortest history, plain read form, plain layout) before it is reported; one
+report per class of divergence.
 The generator's own by-construction expectation (which pair was left out) is asserted against the spec as well
 (a disagreement there is a harness error, exit 2).
 """
@@ -48,9 +61,18 @@ KEYWORDS = {
 }
 
 
+_KW_CACHE = {}
+
+
 def restraint_keywords():
     """the keywords `_parse_cards` appends to `shx.restraints`, read off the source of the tree under test; a keyword
     this table does not know yet is generated with no numeric parameter"""
+    if 'kw' not in _KW_CACHE:
+        _KW_CACHE['kw'] = _restraint_keywords()
+    return _KW_CACHE['kw']
+
+
+def _restraint_keywords():
     src = (core.REPO / 'shelxfile' / 'shelx' / 'shelx.py').read_text()
     found = re.findall(r'_append_card\(\s*self\.restraints\s*,\s*([A-Za-z_]\w*)\s*\(', src)
     kws = dict(KEYWORDS)
@@ -60,6 +82,20 @@ def restraint_keywords():
 
 
 NAMES = ['C1', 'N2', 'O3A', 'C14B', 'N5']      # atom names in use (<= 4 characters); one per token of a restraint
+# families of names that are easy to confuse: one pool per case (the first is the pool above, pairwise different in
+# everything). Within the others two names share the element letters and the number and differ only behind it (the
+# labels of disordered sites: C1A / C1B, C1' / C1"), or one is a prefix of the other (C1 / C10 / C1A), or they differ
+# only in the number, or only in the element letters.
+NAME_POOLS = [
+    NAMES,
+    ['C1A', 'C1B', 'C1C', "C1'", 'C1"'],
+    ['C1', 'C10', 'C11', 'C2', 'C12'],
+    ['C1', 'N1', 'O1', 'C1A', 'N1A'],
+    ['C2A', 'N2A', 'C2B', 'N2B', 'C2'],
+    ["O1'", 'O1"', 'O1', 'O1A', "O11'"],
+    ['C9', 'C09', 'C009', 'C90', 'C900'],
+    ['CA', 'CB', 'CA1', 'CB1', 'CAB'],
+]
 CLASSES = ['CCF3', 'TOL', 'B2']               # a class starts with a letter and may contain digits
 NUMBERS = [1, 2, 3, 4, 7, 11, 23, 105]         # residue numbers in use
 ELEMENT_SFAC = {'C': 1, 'N': 2, 'O': 3, 'I': 1}      # the scattering factor number is not tied to the name
@@ -112,26 +148,79 @@ def render(case):
         head.append('EQIV $2 1-x, y, 1/2-z')
     body = []
     k = 0
+    # `remarks`: '!' comments behind the RESI cards and the atom lines (the lines the diagnostics depend on), used in turn
+    rem = case.get('remarks') or []
+    nrem = [0]
+
+    def remark():
+        nrem[0] += 1
+        c = rem[nrem[0] % len(rem)] if rem else ''
+        return '  !' + c if c else ''
     for cls, num, names, form in case['blocks']:
         if not (num == 0 and cls == '' and form == 'implicit'):
             if form == 'num-first':
-                body.append(f'RESI {num} {cls}'.rstrip())
+                body.append(f'RESI {num} {cls}'.rstrip() + remark())
             elif form == 'alias':
-                body.append(f'RESI {cls} {num} {num + 1000}' if cls else f'RESI {num} {num + 1000}')
+                body.append((f'RESI {cls} {num} {num + 1000}' if cls else f'RESI {num} {num + 1000}') + remark())
             else:
-                body.append(f'RESI {cls} {num}' if cls else f'RESI {num}')
+                body.append((f'RESI {cls} {num}' if cls else f'RESI {num}') + remark())
         for n in names:
             k += 1
-            body.append(gen.AtomSpec(n, ELEMENT_SFAC[n[0].upper()], (0.01 * k, 0.013 * k % 1, 0.5 - 0.003 * k), 11.0, (0.03,)))
+            body.append(gen.AtomSpec(n, ELEMENT_SFAC[n[0].upper()], (0.01 * k, 0.013 * k % 1, 0.5 - 0.003 * k), 11.0, (0.03,)).line() + remark())
     if case['blocks'] and case['blocks'][-1][1] != 0:
-        body.append('RESI 0')
+        body.append('RESI 0' + remark())
     if case.get('where') == 'tail':
-        body = body + list(case['restraints'])
+        body = body + physical(case)
     else:
-        head = head + list(case['restraints'])
+        head = head + physical(case)
     fs.header = head
     fs.body = body
     return fs.text()
+
+
+def physical(case):
+    """the restraints as they stand in the file: one string per restraint, the physical lines of a wrapped one joined
+    with newlines (`layout[i]` = the physical lines of restraint i, None = the logical line as it is)"""
+    lay = case.get('layout') or []
+    return ['\n'.join(lay[i]) if i < len(lay) and lay[i] else line for i, line in enumerate(case['restraints'])]
+
+
+# what may stand behind the '!' of a physical line (SHELXL ignores everything behind it): plain words, names of atoms that
+# do not exist anywhere, numbers, the characters the instruction syntax itself uses ('=' anywhere, also as the last
+# character; '!', '$', '<', '>', '_*')
+COMMENTS = ['', ' first pair', ' d = 1.54', 'd=1.54 s=0.02', ' C77 N88_3 are not in the list', ' =', '= =', ' see SADI_9 C77 =',
+            '! target = 1.54 !', ' $C > < C77_*', ' RESI 9 XYL', ' x =   ']
+
+
+def lay_out(rng, line, shape=None, comment=None, last_comment=None):
+    """one logical instruction line written as SHELXL allows: wrapped with ' =' behind any token (continuation lines
+    start with blanks), several blanks between tokens, blanks behind the '=', a '!' comment behind the '=' of any wrapped
+    line and behind the last line.  shape: list of token counts per physical line (None: random)"""
+    toks = line.split()
+    if shape is None:
+        nl = rng.choice([1, 2, 2, 2, 3, 3, 4])
+        nl = max(1, min(nl, len(toks)))
+        cuts = sorted(rng.sample(range(1, len(toks)), nl - 1)) if nl > 1 else []
+    else:
+        cuts = []
+        k = 0
+        for n in shape[:-1]:
+            k += n
+            if 0 < k < len(toks):
+                cuts.append(k)
+    parts = [toks[a:b] for a, b in zip([0] + cuts, cuts + [len(toks)])]
+    out = []
+    for i, part in enumerate(parts):
+        sep = rng.choice([' ', ' ', ' ', '  ', '   ', '\t', ' \t '])
+        text = ('' if i == 0 else ' ' * rng.choice([1, 2, 3, 5])) + sep.join(part)
+        if i < len(parts) - 1:
+            c = rng.choice(COMMENTS) if comment is None else comment
+            text += rng.choice([' ', ' ', ' ', '  ', '\t', '']) + '=' + rng.choice(['', '', ' ', '  ', '\t']) + ('!' + c if c else '')
+        else:
+            c = rng.choice(COMMENTS[:1] * 3 + COMMENTS) if last_comment is None else last_comment
+            text += (rng.choice([' ', '  ', '', '\t']) + '!' + c if c else rng.choice(['', '', ' ', '\t', '  ']))
+        out.append(text)
+    return out
 
 
 def structure(case):
@@ -185,7 +274,8 @@ def read_case(case, tmp=None):
     if how == 'twice':
         # same structure with every second atom left out and a restraint on an atom that does not exist
         prior.append(dict(case, blocks=[[b[0], b[1], b[2][::2], b[3]] for b in case['blocks']],
-                          restraints=['SADI C77 N88'] + list(case['restraints']), read='string', prior=None))
+                          restraints=['SADI C77 N88'] + list(case['restraints']), read='string', prior=None,
+                          layout=[None] + list(case.get('layout') or [])))
         how = 'string'
     needs_file = how in ('file', 'reload') or any(p.get('read') == 'file' for p in prior)
     ctxm = tempfile.TemporaryDirectory() if needs_file else contextlib.nullcontext()
@@ -249,8 +339,13 @@ def observe_impl(case):
     if got_atoms != atoms:
         return dict(error=f'atoms parsed {got_atoms}, file has {atoms}')
     got_restr = [str(r) for r in shx.restraints]
-    if [' '.join(g.split()) for g in got_restr] != [' '.join(r.split()) for r in case['restraints']]:
+    if len(got_restr) != len(case['restraints']):
         return dict(error=f'restraints parsed {got_restr}, file has {case["restraints"]}')
+    # the text of a restraint is not an observable of this property: a difference is reported only if the diagnostics
+    # themselves are as they should be (otherwise the diagnostics are the report)
+    differs = None
+    if [' '.join(g.split()) for g in got_restr] != [' '.join(r.split()) for r in case['restraints']]:
+        differs = f'restraints parsed {got_restr}, file has {case["restraints"]}'
     messages = shx.restraint_errors
     ops = case.get('ops')
     lookups = None
@@ -275,12 +370,12 @@ def observe_impl(case):
             names = re.sub(r'\*\*\*\s*$', '', names.strip()).strip()
             lists.append(sorted({parse_report(n.strip()) for n in names.split(',') if n.strip()}))
     return dict(lists=[[list(p) for p in l] for l in lists], nmsg=len(messages), raw=list(messages),
-                atoms_after=[[a.name, a.resinum] for a in shx.atoms], lookups=lookups)
+                atoms_after=[[a.name, a.resinum] for a in shx.atoms], lookups=lookups, restraints_differ=differs)
 
 
 def probes(case):
     """(NAME, residue) pairs looked up after a history: the first names x every residue of the file"""
-    return [[nm, n] for n in sorted({b[1] for b in case['blocks']}) for nm in NAMES[:3]]
+    return [[nm, n] for n in sorted({b[1] for b in case['blocks']}) for nm in (case.get('names') or NAMES)[:3]]
 
 
 def pairset(l):
@@ -312,6 +407,22 @@ def token_kind(t):
     return 'tok=bare'
 
 
+def layout_tags(case):
+    tags = set()
+    for lines in case.get('layout') or []:
+        if not lines:
+            continue
+        tags.add(f'layout=lines{min(len(lines), 4)}')
+        for k, l in enumerate(lines):
+            code, bang, com = l.partition('!')
+            if bang:
+                where = 'last' if k == len(lines) - 1 else 'wrapped'
+                tags.add(f'layout=comment-{where}' + ('-with-=' if '=' in com else ''))
+    if case.get('remarks'):
+        tags.add('comments-on-RESI-and-atom-lines')
+    return sorted(tags)
+
+
 def signature(kmode, toks, pairs, direction, stream):
     """site of the divergence: the kind of the token the first differing (NAME, residue) pair belongs to; for a bare
     token the keyword suffix decides, so it is part of the site"""
@@ -331,9 +442,15 @@ def signature(kmode, toks, pairs, direction, stream):
 def requests_for(case):
     atoms, resis = structure(case)
     reqs = []
-    for line in case['restraints']:
+    lay = case.get('layout') or []
+    for i, line in enumerate(case['restraints']):
         kw, toks = split_restraint(line)
         rq = dict(p='C17', op='check', atoms=atoms, resis=resis, kw=kw, toks=toks)
+        if i < len(lay) and lay[i]:
+            # the model starts at the physical lines (continuation loop, split, Restraint.__init__); the spec restraint is
+            # the one the layout denotes by C05.norm; which tokens are numbers is decided by the format
+            rq['lines'] = list(lay[i])
+            rq['numeric'] = sorted({t for t in line.split()[1:] if is_number(t)})
         if case.get('ops'):
             rq['ops'] = driver_ops(case['ops'])
             if not reqs:
@@ -384,11 +501,41 @@ def minimise(ctx, case, want_prop):
         return j is not None and (j['bad_prop'] if want_prop else (j['bad_model'] and not j['bad_prop']))
     case = {k: v for k, v in case.items() if k != 'expect'}
     if len(case['restraints']) > 1:
-        for line in case['restraints']:
-            c = dict(case, restraints=[line])
+        lay = case.get('layout') or []
+        for i, line in enumerate(case['restraints']):
+            c = dict(case, restraints=[line], layout=[lay[i]] if i < len(lay) and lay[i] else None)
             if still(c):
                 case = c
                 break
+    # the physical layout: the plain logical line if that diverges too, else unwrapped lines one by one
+    if case.get('layout') and any(case['layout']):
+        c = dict(case, layout=None)
+        if still(c):
+            case = c
+    if case.get('layout') and any(case['layout']):
+        # drop the comments one by one, then the blanks that are not needed
+        for i, lines in enumerate(case['layout']):
+            for k in range(len(lines or [])):
+                for simpler in (case['layout'][i][k].split('!')[0].rstrip(), ' '.join(case['layout'][i][k].split('!')[0].split())):
+                    if k and not simpler.startswith(' '):
+                        simpler = ' ' + simpler
+                    if simpler == case['layout'][i][k]:
+                        continue
+                    lay = [list(l) if l else l for l in case['layout']]
+                    lay[i][k] = simpler
+                    c = dict(case, layout=lay)
+                    try:
+                        ok = still(c)
+                    except Exception:       # the simpler text is no valid layout any more
+                        ok = False
+                    if ok:
+                        case = c
+    if not case.get('layout'):
+        case = {k: v for k, v in case.items() if k != 'layout'}
+    if case.get('remarks'):
+        c = {k: v for k, v in case.items() if k != 'remarks'}
+        if still(c):
+            case = c
     ops = list(case.get('ops') or [])
     changed = True
     while changed and ops:
@@ -435,6 +582,15 @@ def evaluate(ctx, cases, stream=None):
         for ri, rq in enumerate(requests_for(case)):
             reqs.append(rq)
             idx.append((ci, ri))
+    # a laid-out restraint: C05's `norm` of its physical lines (the specification of wrapping and comments) has to be
+    # the logical line the expectation is computed from, else the generator wrote something else than it meant
+    laid = [(ci, i, lines) for ci, case in enumerate(cases) for i, lines in enumerate(case.get('layout') or []) if lines]
+    if laid:
+        for (ci, i, lines), r in zip(laid, ctx.driver.batch([dict(p='C05', op='lines', lines=list(l)) for _, _, l in laid])):
+            want = cases[ci]['restraints'][i].split()
+            want = [want[0].upper()] + want[1:]
+            if r['spec'] != [want]:
+                raise RuntimeError(f'C17 generator: layout {lines} reads as {r["spec"]} by C05.norm, meant {want}')
     ans = ctx.driver.batch(reqs)
     ctx.stream('missing')
     ctx.stream('model')
@@ -469,7 +625,7 @@ def evaluate(ctx, cases, stream=None):
         anymissing = j['anymissing']
         addressed_other = any(a is not None and a != [0] for r in rs for a in r['spec']['addressed'])
         edits = [op[0] for op in (case.get('ops') or []) if op[0] not in ('check', 'touch')]
-        ctx.count(['c', case['blocks'], case['restraints'], case.get('eqiv'), case.get('where'), case.get('ops'), case.get('read'),
+        ctx.count(['c', case['blocks'], case['restraints'], case.get('layout'), case.get('remarks'), case.get('eqiv'), case.get('where'), case.get('ops'), case.get('read'),
                    [[p['blocks'], p['restraints'], p.get('read')] for p in case.get('prior') or []]],
                   nontrivial=(addressed_other or anymissing) and (not hist or bool(edits)),
                   sample=dict(restraints=case['restraints'], blocks=[[b[0], b[1], b[2]] for b in case['blocks']], ops=case.get('ops'),
@@ -478,8 +634,13 @@ def evaluate(ctx, cases, stream=None):
                                f'nrestr={len(case["restraints"])}', 'read=' + case.get('read', 'string'), f'prior-reads={len(case.get("prior") or [])}']
                   + (['number-respelled'] if any(re.search(r'[eE+]|^\.|\.$|^0\d', t) for line in case['restraints'] for t in line.split()[1:] if is_number(t)) else [])
                   + ['kwd=' + line.split()[0].split('_')[0].upper() for line in case['restraints']]
+                  + layout_tags(case) + [f'absent-pairs={min(3, max(len(l) for l in j["spec_lists"]))}{"+" if max(len(l) for l in j["spec_lists"]) > 3 else ""}']
+                  + ([f'names=pool{NAME_POOLS.index(case["names"])}'] if case.get('names') in NAME_POOLS else [])
                   + (['history'] + ['op=' + e for e in edits] if hist else []))
         if not (j['bad_prop'] or j['bad_model']):
+            if obs.get('restraints_differ'):
+                ctx.fail('C17|parse', f'generated file not processed as constructed: {obs["restraints_differ"]}',
+                         dict(case=case, stream='model', actual=obs), kind='correspondence')
             continue
         # --- a divergence: minimise it (a bounded number of times per run), then name its site -------------
         want_prop = j['bad_prop']
@@ -529,6 +690,14 @@ def evaluate(ctx, cases, stream=None):
             hsig = 'history|' + (redits[-1] if redits else 'evaluate') + '|'
         if minimised and rcase.get('read', 'string') != 'string':
             hsig += f'read={rcase["read"]}|'        # the read form is part of the site only if the plain form does not diverge
+        if rcase.get('layout'):
+            if minimised:
+                hsig += 'layout|'                       # wrapped / commented: the plain logical line does not diverge
+            where += f'; written as {rcase["layout"]}'
+        if rcase.get('remarks'):
+            if minimised:
+                hsig += 'line-comments|'
+            where += f'; RESI and atom lines carry the comments {rcase["remarks"]}'
         if minimised and rcase.get('prior'):
             hsig += 'after-' + '+'.join('read_' + p.get('read', 'string') for p in rcase['prior']) + '|'
             where += f'; the object had read before: {[(p["restraints"], [(b[0], b[1]) for b in p["blocks"] if b[1]]) for p in rcase["prior"]]}'
@@ -585,19 +754,25 @@ def addressed_by_construction(kwmode, tokmode, resnums, classes_of):
 
 
 def build_case(rng, kwname, kwmode, tokmodes, resis, fill, absent, casing, params, eqiv=True, where='head', form='class-first',
-               strict=False):
+               strict=False, pool=None):
     """
-    resis: [(class, number)] in file order; kwmode: (none|num|star|class, value); tokmodes: [(bare|num|star|$E|range|sym, value)]
-    fill: 'full' (every name in every residue) | 'minimal' (only what is addressed) ; absent: None or index into the
-    list of addressed pairs; casing: dict(names=..., cls_resi=..., cls_kw=..., kw=...)
+    resis: [(class, number)] in file order; kwmode: (none|num|star|class, value); tokmodes: [(bare|num|star|$E|range|sym, value)],
+    ('same', (kind, value)) = the name of the token before once more;
+    fill: 'full' (every name in every residue) | 'minimal' (only what is addressed) ; absent: None, an index into the
+    list of addressed pairs, ('k', n) = n of them, or 'all'; casing: dict(names=..., cls_resi=..., cls_kw=..., kw=...);
+    pool: the atom names in use (one of NAME_POOLS)
     """
     resnums = [n for _, n in resis]
     classes_of = {n: c for c, n in resis}
-    names = list(NAMES)
+    pool = list(pool or NAMES)
+    names = list(pool)
     toks = []
     addressed = []           # (NAME, n) in token order
     ni = 0
     for kind, val in tokmodes:
+        again = kind == 'same'
+        if again:
+            kind, val = val
         if kind == 'range':
             toks.append(val)
             continue
@@ -610,9 +785,13 @@ def build_case(rng, kwname, kwmode, tokmodes, resis, fill, absent, casing, param
             w = swapcase(nm, casing.get('names_restr'))
             names = names + [nm] if nm not in names else names
         else:
-            nm = names[ni % len(NAMES)]
+            if again and ni:
+                ni -= 1
+            nm = names[ni % len(pool)]
             ni += 1
             w = swapcase(nm, casing.get('names_restr'))
+            if again and casing.get('names_restr') is None and nm.lower() != nm and rng.random() < 0.5:
+                w = nm.lower()                       # c1 and C1 are the same atom
         if kind == 'sym':
             toks.append(f'{w}_${val}')
             continue
@@ -631,11 +810,15 @@ def build_case(rng, kwname, kwmode, tokmodes, resis, fill, absent, casing, param
     for p in addressed:
         if p not in uniq:
             uniq.append(p)
-    gone = None
-    if absent is not None and strict and absent >= len(uniq):
+    gone = []
+    if isinstance(absent, int) and strict and absent >= len(uniq):
         return None
-    if absent is not None and uniq:
-        gone = uniq[absent % len(uniq)]
+    if absent == 'all':
+        gone = list(uniq)
+    elif isinstance(absent, (tuple, list)):
+        gone = rng.sample(uniq, min(absent[1], len(uniq)))
+    elif absent is not None and uniq:
+        gone = [uniq[absent % len(uniq)]]
     present = set()
     all_res = [0] + resnums
     if fill == 'full':
@@ -645,8 +828,8 @@ def build_case(rng, kwname, kwmode, tokmodes, resis, fill, absent, casing, param
     for p in uniq:
         if p[1] in all_res:
             present.add(p)
-    if gone:
-        present.discard(gone)
+    for p in gone:
+        present.discard(p)
     expect = sorted({p for p in uniq if p not in present})
     blocks = []
     order = [('', 0)] + list(resis)
@@ -659,7 +842,10 @@ def build_case(rng, kwname, kwmode, tokmodes, resis, fill, absent, casing, param
     if params and rng.random() < 0.6:
         params = respell(rng, params)
     line = ' '.join(x for x in [kw, params] + toks if x)
-    return dict(blocks=blocks, restraints=[line], eqiv=eqiv, where=where, expect=[[list(p) for p in expect]])
+    c = dict(blocks=blocks, restraints=[line], eqiv=eqiv, where=where, expect=[[list(p) for p in expect]])
+    if pool != NAMES:
+        c['names'] = pool
+    return c
 
 
 def residue_layouts(rng, thorough):
@@ -678,6 +864,22 @@ def residue_layouts(rng, thorough):
                     rng.shuffle(assign)
                 out.append([(assign[i], nums[i]) for i in range(nres)])
     return out
+
+
+_LAYOUT_SHAPES = [(0, 0)] + [(nres, ncls) for nres in range(1, 6) for ncls in range(1, 4) if ncls <= nres]
+
+
+def random_layout(rng):
+    """one of the structures of residue_layouts (0..5 residues of 1..3 classes), drawn directly"""
+    nres, ncls = rng.choice(_LAYOUT_SHAPES)
+    if not nres:
+        return []
+    nums = rng.sample(NUMBERS, nres)
+    cls = rng.sample(CLASSES + [''], ncls)
+    assign = [cls[i % ncls] for i in range(nres)]
+    if rng.random() < 0.5:
+        rng.shuffle(assign)
+    return [(assign[i], nums[i]) for i in range(nres)]
 
 
 def kw_modes(resis, rng):
@@ -708,6 +910,13 @@ TOKEN_PATTERNS = [
     [('name', 'NAN'), ('bare', None)],
     [('bare', None), ('name', 'inf'), ('num', 'R'), ('name', 'Nan')],
     [('bare', None), ('bare', None), ('num', 'R'), ('star', None), ('range', '>'), ('$E', 'O'), ('sym', 1)],
+    # the same name more than once, addressed in the same or in different ways
+    [('bare', None), ('same', ('bare', None)), ('bare', None)],
+    [('num', 'R'), ('same', ('star', None)), ('same', ('bare', None)), ('same', ('num', 'X'))],
+    # as many names as the pool has: several of them can be absent at once
+    [('bare', None)] * 5,
+    [('bare', None), ('num', 'R'), ('bare', None), ('num', 'R'), ('bare', None), ('num', 0)],
+    [('star', None), ('star', None), ('bare', None), ('star', None)],
 ]
 
 
@@ -715,6 +924,9 @@ def instantiate(pattern, resis, rng):
     nums = [n for _, n in resis]
     out = []
     for kind, val in pattern:
+        if kind == 'same':
+            out.append(('same', instantiate([val], resis, rng)[0]))
+            continue
         if val == 'R':
             val = rng.choice(nums) if nums else rng.choice(NUMBERS)
         elif val == 'X':
@@ -739,7 +951,8 @@ def grid(rng, thorough):
             for pattern in TOKEN_PATTERNS:
                 tokmodes = instantiate(pattern, resis, rng)
                 for fill in ('full', 'minimal'):
-                    absents = [None] + (list(range(12)) if thorough else [rng.randrange(8)])
+                    absents = [None] + (list(range(12)) + [('k', 2), ('k', 3), 'all'] if thorough else
+                                        [rng.randrange(8), rng.choice([('k', 2), ('k', 3), 'all'])])
                     for absent in absents:
                         i += 1
                         kwname = kws[i % len(kws)]
@@ -747,7 +960,8 @@ def grid(rng, thorough):
                         casing = CASINGS[(i // 3) % len(CASINGS)] if (i % 3 == 0) else {}
                         c = build_case(rng, kwname, kwmode, tokmodes, resis, fill, absent, casing, params,
                                        eqiv=True, where='tail' if i % 5 == 0 else 'head',
-                                       form=['class-first', 'num-first', 'alias'][(i // 7) % 3], strict=thorough)
+                                       form=['class-first', 'num-first', 'alias'][(i // 7) % 3], strict=thorough,
+                                       pool=NAME_POOLS[(i // 2) % len(NAME_POOLS)] if i % 2 else None)
                         if c is not None:
                             yield c
 
@@ -768,10 +982,67 @@ def keyword_cross(rng, thorough):
                                              CASINGS[(pi + len(params)) % len(CASINGS)], params)
 
 
+def layout_grid(rng, thorough):
+    """the systematic part for the physical layout: a restraint of six atoms (bare, NAME_n) on a structure with two
+    residues x where it is wrapped (behind the keyword, in the middle, before the last atom; two, three, four lines)
+    x what stands behind the '=' (nothing, blanks, each kind of comment) and behind the last line x which atom is
+    absent (each single token in turn — on the first, a middle and the last physical line — or none)"""
+    KEYWORDS, _ = restraint_keywords()
+    kws = list(KEYWORDS)
+    resis = [('CCF3', 1), ('TOL', 2)]
+    tokmodes = [('bare', None), ('num', 1), ('bare', None), ('num', 2), ('bare', None), ('bare', None)]
+    shapes = [[1, 9], [3, 9], [6, 9], [2, 2, 9], [1, 1, 9], [3, 2, 9], [2, 1, 2, 9]]
+    i = 0
+    for shape in shapes:
+        for comment in COMMENTS:
+            for kwmode in [('none', None), ('class', 'CCF3'), ('num', 2), ('star', None)][:4 if thorough else 2]:
+                for absent in ([None] + list(range(8)) if thorough else [None, rng.randrange(8), rng.randrange(8)]):
+                    i += 1
+                    kwname = kws[i % len(kws)]
+                    c = build_case(rng, kwname, kwmode if thorough else rng.choice([('none', None), ('class', 'CCF3'), ('num', 2), ('star', None)]),
+                                   tokmodes, resis, 'full', absent, CASINGS[i % len(CASINGS)] if i % 4 == 0 else {},
+                                   KEYWORDS[kwname][0], where='tail' if i % 3 == 0 else 'head', pool=NAME_POOLS[i % 3])
+                    # the parameter tokens shift the cut points: the shape counts tokens of the whole line
+                    c['layout'] = [lay_out(rng, c['restraints'][0], shape=shape, comment=comment,
+                                           last_comment=COMMENTS[(i // 2) % len(COMMENTS)] if i % 2 else '')]
+                    if i % 3 == 1:
+                        c['remarks'] = [comment, COMMENTS[(i // 3) % len(COMMENTS)], '']
+                    c.pop('expect', None)
+                    yield c
+
+
+def confusable_grid(rng, thorough):
+    """the systematic part for names that are easy to confuse: every pool x how the restraint addresses (default, _n,
+    _CLASS, _*, NAME_n, NAME_*) x all five names of the pool in one restraint x which of them are absent (none, each
+    single one, each pair, all)"""
+    KEYWORDS, _ = restraint_keywords()
+    kws = list(KEYWORDS)
+    resis = [('CCF3', 1), ('', 4), ('CCF3', 11)]
+    i = 0
+    for pool in NAME_POOLS:
+        for kwmode, tokkind in [(('none', None), ('bare', None)), (('num', 4), ('bare', None)), (('class', 'CCF3'), ('bare', None)),
+                                (('star', None), ('bare', None)), (('none', None), ('num', 11)), (('num', 1), ('star', None))]:
+            tokmodes = [tokkind] * 5
+            subsets = [None, 'all'] + [('pick', [a]) for a in range(5)] + [('pick', [a, b]) for a in range(5) for b in range(a + 1, 5)]
+            if not thorough:
+                subsets = [None, 'all'] + rng.sample(subsets[2:7], 1) + rng.sample(subsets[7:], 3)
+            for sub in subsets:
+                i += 1
+                kwname = kws[i % len(kws)]
+                c = build_case(rng, kwname, kwmode, tokmodes, resis, 'full' if i % 2 else 'minimal', None, CASINGS[i % len(CASINGS)] if i % 3 == 0 else {},
+                               KEYWORDS[kwname][0], pool=pool)
+                if sub is not None:
+                    # leave the chosen names out of every residue the restraint addresses
+                    gone = {pool[k].upper() for k in (range(5) if sub == 'all' else sub[1])}
+                    for blk in c['blocks']:
+                        blk[2] = [nm for nm in blk[2] if nm.upper() not in gone]
+                c.pop('expect', None)
+                yield c
+
+
 def random_case(rng):
     KEYWORDS, _ = restraint_keywords()
-    layouts = residue_layouts(rng, False)
-    resis = list(rng.choice(layouts))
+    resis = random_layout(rng)
     if resis and rng.random() < 0.25:
         # a residue continued in a second block further down (registered twice under the same number)
         resis.append(rng.choice(resis))
@@ -786,9 +1057,17 @@ def random_case(rng):
     # several restraints share one structure: build each, then merge the atoms that have to be present
     casing = rng.choice(CASINGS)
     fill = rng.choice(['full', 'minimal'])
-    built = [build_case(rng, k, m, t, resis, fill, rng.choice([None, rng.randrange(8)]), casing, rng.choice(KEYWORDS[k]),
-                        form=rng.choice(['class-first', 'num-first', 'alias'])) for k, m, t in cases]
+    pool = rng.choice(NAME_POOLS[:1] * 3 + NAME_POOLS)
+    built = [build_case(rng, k, m, t, resis, fill, rng.choice([None, rng.randrange(8), rng.randrange(8), ('k', 2), ('k', 3), 'all']),
+                        casing, rng.choice(KEYWORDS[k]), form=rng.choice(['class-first', 'num-first', 'alias']), pool=pool)
+             for k, m, t in cases]
+    # the physical layout of each restraint: as it is, or wrapped / commented
+    layout = [lay_out(rng, b['restraints'][0]) if rng.random() < 0.3 else None for b in built]
     if n == 1:
+        if layout[0]:
+            built[0]['layout'] = layout
+        if rng.random() < 0.15:
+            built[0]['remarks'] = rng.sample(COMMENTS[1:], 3) + ['']
         return built[0]
     # merged structure: an atom is present iff it is present in every single-restraint file (so what one restraint
     # misses stays missing); the expectation is left to the spec
@@ -798,7 +1077,14 @@ def random_case(rng):
         keep = s if keep is None else keep & s
     first = built[0]
     blocks = [[blk[0], blk[1], [nm for nm in blk[2] if (nm.upper(), blk[1]) in keep], blk[3]] for blk in first['blocks']]
-    return dict(blocks=blocks, restraints=[b['restraints'][0] for b in built], eqiv=True, where=rng.choice(['head', 'tail']), expect=None)
+    c = dict(blocks=blocks, restraints=[b['restraints'][0] for b in built], eqiv=True, where=rng.choice(['head', 'tail']), expect=None)
+    if any(layout):
+        c['layout'] = layout
+    if pool != NAMES:
+        c['names'] = pool
+    if rng.random() < 0.15:
+        c['remarks'] = rng.sample(COMMENTS[1:], 3) + ['']
+    return c
 
 
 def history_case(rng):
@@ -811,6 +1097,7 @@ def history_case(rng):
         if len(cur) >= 2:
             break
     resnums = sorted({b[1] for b in case['blocks']})
+    NAMES = case.get('names') or globals()['NAMES']
     ops = []
     edits = 0
     n = rng.randint(1, 6)
@@ -833,7 +1120,7 @@ def history_case(rng):
             edits += 1
         elif kind == 'rename':
             i = rng.randrange(len(cur))
-            nm = rng.choice(NAMES + ['C9', 'N8', 'c1', 'n2'])
+            nm = rng.choice(NAMES + ['C9', 'N8', NAMES[0].lower(), NAMES[1].lower()])
             if rng.random() < 0.05:
                 nm = nm + '_2'                      # refused by the setter ("Illegal atom name"): nothing changes
             else:
@@ -841,7 +1128,7 @@ def history_case(rng):
             ops.append(['rename', i, nm])
             edits += 1
         elif kind == 'add':
-            nm = rng.choice(NAMES + ['c1', 'o3a'])
+            nm = rng.choice(NAMES + [NAMES[0].lower(), NAMES[2].lower()])
             cur.append([nm, 0, False])
             ops.append(['add', nm])
             edits += 1
@@ -886,16 +1173,21 @@ CORPUS = [
 def run(ctx):
     ctx.rule = ('generated files: residue 0 plus 0..5 RESI blocks of 1..3 classes (one may be the empty class), atoms C1 N2 O3A C14B N5; '
                 '1..3 restraints of 13 keywords x keyword suffix (none, _0, _n existing, _n not existing, _CLASS known/unknown, _*) x '
-                'token patterns (bare, _n, _0, _*, $E, <, >, _$n); every addressed atom present or exactly one absent; case variants of '
+                'token patterns (bare, _n, _0, _*, $E, <, >, _$n, the same name repeated); every addressed atom present, or one, two, three or all of the addressed (NAME, residue) pairs absent; '
+                'names from one of 8 pools of five (pairwise different; or differing in one character only: C1A C1B C1C C1\' C1", C1 C10 C11, C1 N1 O1, C9 C09 C009 ...); '
+                'restraints as one line or wrapped with = behind any token (2..4 physical lines) with ! comments behind the = and behind the last line '
+                '(comments containing =, !, $, <, >, names of absent atoms, keywords), ! comments on RESI and atom lines; case variants of '
                 'names, classes and keywords; numerical parameters in every spelling of the free format (sign, .5, 2., zero padding, e/E exponents); atom names NAN / INF; read through read_string / read_file / reload, also on an object that has read 1..2 other structures before; histories of 1..6 '
                 'steps (evaluate, look-up, del atoms[id], Atom.delete, rename, add_atom, atom.resi = ...) followed by a new evaluation; '
-                'distinct by (blocks, restraint lines, history, read form); non-trivial = some token addresses residues other '
+                'distinct by (blocks, restraint lines, physical layout, comments, history, read form); non-trivial = some token addresses residues other '
                 'than [0] or an atom is missing, and for histories at least one edit')
     ctx.assumptions = ['keyword carries at most one "_"; residue numbers on atoms are written without leading zeros (wfTok); '
                        'atom names carry no "_" (wfFile); ASCII', 'all residues = the residues defined by RESI cards (number > 0); '
                        'residue 0 is addressed only by default or by _0 (this is what tests/test_restraints.py fixes for NAME_*)',
                        'a RESI card without class is registered by the code under the class name RESI; no generated restraint uses that class',
-                       'histories: the residue registry is not edited; restraints stay as parsed']
+                       'histories: the residue registry is not edited; restraints stay as parsed',
+                       'layout: blanks and tabs between tokens, continuation lines start with a blank, '
+                       'no text other than a ! comment behind the = (C05.norm is the specification; the harness asserts it on every generated layout)']
     thorough = ctx.tier == 'thorough'
     level = 2 if thorough else 1 if ctx.escalated else 0        # escalated: the anchored sources differ from model_map.json
     _, in_source = restraint_keywords()
@@ -911,7 +1203,7 @@ def run(ctx):
         g = g[:[1200, 6000][level]]
     else:
         ctx.exhaustive = True
-        ctx.extra['grid'] = f'{len(g)} files: layouts x keyword modes x {len(TOKEN_PATTERNS)} token patterns x fill x (present | each single absence, up to 12)'
+        ctx.extra['grid'] = f'{len(g)} files: layouts x keyword modes x {len(TOKEN_PATTERNS)} token patterns x fill x (present | each single absence, up to 12 | two | three | all absent), names from 8 pools'
     cases += g
     kc = list(keyword_cross(ctx.rng, thorough))
     if not thorough:
@@ -920,6 +1212,11 @@ def run(ctx):
     else:
         ctx.extra['keyword_cross'] = f'{len(kc)} files: 13 keywords x parameter forms x keyword suffixes x {len(TOKEN_PATTERNS)} token patterns on 4 layouts'
     cases += kc
+    lg = list(layout_grid(ctx.rng, thorough))
+    cg = list(confusable_grid(ctx.rng, thorough))
+    ctx.extra['layout_grid'] = f'{len(lg)} files: 7 wrap shapes x {len(COMMENTS)} texts behind the "=" x keyword suffixes x absent token'
+    ctx.extra['confusable_grid'] = f'{len(cg)} files: {len(NAME_POOLS)} name pools x 6 addressing forms x absent subsets (none, one, pairs, all)'
+    cases += lg + cg
     for i in range([600, 5000, 60000][level]):
         c = random_case(ctx.rng)
         if i % 10 == 0:
